@@ -71,10 +71,16 @@ func (e *bexpr) src() string {
 	case "mul":
 		return "(" + e.L.src() + " * " + e.R.src() + ")"
 	case "call":
-		if emitAwaitCalls {
+		switch emitAwaitCalls {
+		case 1:
 			// async variant: the helper runs as its own task and is awaited in place, so the body
 			// suspends with whatever operands the surrounding expression has already pushed
 			return "(await a" + e.Fn + "(" + e.L.src() + "))"
+		case 2:
+			// async variant: the helper is called through a closure of the body that awaits a
+			// pending timer promise first (an await in a closure waits in place, the task does
+			// not suspend there)
+			return "c" + e.Fn + ".(" + e.L.src() + ")"
 		}
 		return e.Fn + "(" + e.L.src() + ")"
 	}
@@ -83,7 +89,22 @@ func (e *bexpr) src() string {
 
 // emitAwaitCalls switches the emitters to the awaiting form of helper calls
 // (case generation is sequential, so a package variable is enough).
-var emitAwaitCalls bool
+var emitAwaitCalls int
+
+// closures of the async variant in mode 2; they capture nothing
+const bodyClosures = `  ch1 := |q: Int|: Int -> do
+    await timeout(1.millisecond)
+    h1(q)
+  end
+  ch2 := |q: Int|: Int -> do
+    await timeout(2.millisecond)
+    h2(q)
+  end
+  ch3 := |q: Int|: Int -> do
+    await timeout(1.millisecond)
+    h3(q)
+  end
+`
 
 func (c *bcond) src() string {
 	op := map[string]string{"lt": "<", "gt": ">", "eq": "==", "ne": "!="}[c.Op]
@@ -453,6 +474,8 @@ type bodyProgram struct {
 	Src    string   `json:"src"`
 	Expect []string `json:"expect"`
 	Bodies int      `json:"bodies"`
+	// set for programs of genCaptureProgram
+	Capture string `json:"capture,omitempty"`
 }
 
 // genBodyProgram emits nBodies bodies, each as plain / generator / async, plus
@@ -492,13 +515,24 @@ func genBodyProgram(r *Rand, nBodies int) bodyProgram {
 		// "x" is a parameter: assignments to it are fine in Elk? keep a local copy instead
 		pre := "  x := x0\n"
 		if !yields {
-			awaitCalls := r.Chance(0.6)
+			awaitCalls := Pick(r, []int{0, 0, 1, 1, 1, 2, 2})
+			if awaitCalls == 2 && hasStmtKind(stmts, "retif") {
+				// the checker rejects a `return` that follows a closure literal in the same body
+				// (it is checked against the return type `void`; sequential, see DESIGN.md 7.3)
+				awaitCalls = 1
+			}
 			for _, variant := range []struct{ kw, name string }{{"def", "f"}, {"def *", "g"}, {"async def", "a"}} {
-				emitAwaitCalls = awaitCalls && variant.name == "a"
-				fmt.Fprintf(&b, "%s%s%d(x0: Int): Int\n%s", variant.kw, fnSep(variant.kw)+variant.name, k, pre)
+				vpre := pre
+				if variant.name == "a" {
+					emitAwaitCalls = awaitCalls
+					if awaitCalls == 2 {
+						vpre += bodyClosures
+					}
+				}
+				fmt.Fprintf(&b, "%s%s%d(x0: Int): Int\n%s", variant.kw, fnSep(variant.kw)+variant.name, k, vpre)
 				emitStmts(&b, stmts, "  ", "")
 				fmt.Fprintf(&b, "  %s\nend\n", final.src())
-				emitAwaitCalls = false
+				emitAwaitCalls = 0
 			}
 			for _, x := range inputs {
 				env := &benv{vars: map[string]*big.Int{"x": big.NewInt(x)}, helpers: goHelpers()}
@@ -583,6 +617,61 @@ func genBodyProgram(r *Rand, nBodies int) bodyProgram {
 	return bodyProgram{Src: b.String(), Expect: expect, Bodies: nBodies}
 }
 
+// genCaptureProgram: a closure of the body captures a local that is assigned after a
+// suspension of the body (by the closure or by the body) and read afterwards by the other side.
+func genCaptureProgram(r *Rand) bodyProgram {
+	var b strings.Builder
+	b.WriteString(bodyHelpers)
+	mutate := Pick(r, []string{"closure", "body"})
+	read := Pick(r, []string{"local", "closure"})
+	for _, variant := range []struct{ kw, name, call string }{{"def", "f", "h1(x0)"}, {"async def", "a", "(await ah1(x0))"}} {
+		fmt.Fprintf(&b, "%s %s0(x0: Int): Int\n  var a = x0\n  g := || -> do\n    a = a + 1\n    a\n  end\n  g.()\n  v := %s\n", variant.kw, variant.name, variant.call)
+		if mutate == "closure" {
+			b.WriteString("  g.()\n")
+		} else {
+			b.WriteString("  a = a + 5\n")
+		}
+		if read == "local" {
+			b.WriteString("  a * 7 + v\nend\n")
+		} else {
+			b.WriteString("  g.() * 7 + v\nend\n")
+		}
+	}
+	var expect []string
+	for _, x := range []int64{int64(r.Range(-5, 30)), int64(r.Range(31, 60))} {
+		a := x + 1
+		v := 3*x - 1
+		if mutate == "closure" {
+			a++
+		} else {
+			a += 5
+		}
+		if read == "closure" {
+			a++
+		}
+		res := a*7 + v
+		xs := fmt.Sprint(x)
+		if x < 0 {
+			xs = fmt.Sprintf("(0 - %d)", -x)
+		}
+		fmt.Fprintf(&b, "println \"f0:%d=${f0(%s)}\"\nprintln \"a0:%d=${await a0(%s)}\"\n", x, xs, x, xs)
+		expect = append(expect, fmt.Sprintf("f0:%d=%d", x, res), fmt.Sprintf("a0:%d=%d", x, res))
+	}
+	b.WriteString("println \"end\"\n")
+	expect = append(expect, "end")
+	sort.Strings(expect)
+	return bodyProgram{Src: b.String(), Expect: expect, Bodies: 1, Capture: mutate + "/" + read}
+}
+
+func hasStmtKind(stmts []*bstmt, kind string) bool {
+	for _, s := range stmts {
+		if s.Kind == kind || hasStmtKind(s.Then, kind) || hasStmtKind(s.Else, kind) {
+			return true
+		}
+	}
+	return false
+}
+
 func fnSep(kw string) string {
 	if strings.HasSuffix(kw, "*") {
 		return ""
@@ -615,6 +704,9 @@ func (*c15Engine) Generate(seed uint64, tier string) *Case {
 			n = r.Range(1, 5)
 		}
 		bp := genBodyProgram(r, n)
+		if r.Chance(0.04) {
+			bp = genCaptureProgram(r)
+		}
 		p.Body = &bp
 		p.Queue = 64 + 16*n
 	} else {
@@ -663,11 +755,17 @@ func (*c15Engine) Execute(t *testing.T, c *Case) *Verdict {
 		v = judgeProm("C15", pp, &oc)
 		if v.Verdict == "violation" && v.Class == "tokens" {
 			v.Detail = "plain / generator / async variants of the same body disagree with each other or with the reference evaluator: " + v.Detail
+			if p.Body.Capture != "" {
+				v.Sig = "tokens/closure-upvalue-after-suspension"
+			}
 		}
 	}
 	v.Hash = hashStrings(src, fmt.Sprint(p.Pool, p.Queue), hashDecisions(oc.Res.Decisions))
 	v.Nontrivial = oc.Res.Switches >= 2
 	v.Extra = map[string]int64{"family_body": b2i(p.Body != nil), "family_promdag": b2i(p.Prom != nil), fmt.Sprintf("pool_%d", p.Pool): 1}
+	if p.Body != nil && p.Body.Capture != "" {
+		v.Extra["family_capture"] = 1
+	}
 	v.Sample = map[string]any{"pool": p.Pool, "queue": p.Queue, "switches": oc.Res.Switches, "output": oc.Out}
 	return v
 }
